@@ -351,3 +351,19 @@ Proof.
   rewrite (search_exact_flat sn musts shoulds nots ms W Hms Hne Hs Hn).
   rewrite (search_exact_flat_default sn musts shoulds nots ms W Hms Hne Hs Hn). reflexivity.
 Qed.
+
+(* the same for arbitrarily nested boolean queries over term / match-none clauses (any number of
+   clauses, any minShould >= 0; push-down off): SearchersProofsGeneral.search_exact_nested *)
+From Bluge Require Import Search.SearchersProofsGeneral.
+
+Theorem layout_independent_matches_nested : forall sn1 sn2 q d,
+  wf_sn sn1 -> wf_sn sn2 -> qok d q -> (2 * d + 1 <= depth_fuel q)%nat ->
+  Permutation (logical sn1) (logical sn2) ->
+  exists ids1 ids2,
+    answer sn1 copts_plain q = Ok ids1 /\ answer sn2 copts_plain q = Ok ids2 /\ Permutation ids1 ids2.
+Proof.
+  intros sn1 sn2 q d W1 W2 Hq Hd HP.
+  unfold answer. rewrite (search_exact_nested sn1 q d W1 Hq Hd), (search_exact_nested sn2 q d W2 Hq Hd). cbn [rbind].
+  eexists _, _. split; [reflexivity|]. split; [reflexivity|]. rewrite !answer_ids.
+  apply sem_ids_layout_independent. exact HP.
+Qed.
